@@ -150,10 +150,12 @@ def leanchecker(module):
     return rc == 0, out
 
 
-def check_proofs(prop, module, tier):
+def check_proofs(prop, module, tier, only_prefix=None):
     """Build the property's theorem module, audit it. Returns dict describing the obligations."""
     module_rel = module.replace(".", "/") + ".lean"
     names = theorem_names(module_rel)
+    if only_prefix:
+        names = [n for n in names if n.startswith(only_prefix)]
     res = {"module": module, "theorems": names, "obligations": len(names), "discharged": 0, "axioms": {}, "broken": [], "notes": []}
     ok, out = lake_build(module)
     if not ok:
